@@ -110,7 +110,17 @@ fn bytes_of(l: &LayerRep) -> Vec<u8> {
             let mut s = v1::SampleSet::default();
             if l.variant > 0 {
                 s.sense = l.variant as i32;
+                // one entry per map: a prost map with several entries has no deterministic encoding order
                 s.feasible = [(7u64, true)].into_iter().collect();
+                if l.variant == 1 {
+                    // the field layout of an earlier release (tag 6 set, tag 7 absent): stored as it is
+                    #[allow(deprecated)]
+                    {
+                        s.feasible_unrelaxed = [(7u64, false)].into_iter().collect();
+                    }
+                } else {
+                    s.feasible_relaxed = [(7u64, true)].into_iter().collect();
+                }
             }
             s.encode_to_vec()
         }
